@@ -75,6 +75,12 @@ Theorem C15_hand_Date : forall rs v p, write_date v = TOk p ->
 Proof. exact date_rt. Qed.
 Print Assumptions C15_hand_Date.
 
+(** Action (after fix C15-b): Goto with a named destination and every other action *)
+Theorem C15_hand_Action : forall rs v p, action_ok v -> write_action v = TOk p ->
+  exists v', read_action rs p = TOk v' /\ write_action v' = TOk p.
+Proof. exact action_rt. Qed.
+Print Assumptions C15_hand_Action.
+
 (** Second sentence, READER half: for a model with a catch-all, every entry of an accepted input dictionary survives
     reading and writing back — (1) an unrecognised entry verbatim (also /Type and the checked keys), (2) a recognised
     entry as the written form of the value read from it (this per-type normalisation is where integers become reals
